@@ -137,11 +137,15 @@ func nativeReplay(repoDir, harnessDir string, cases []replayCase, dropFiles map[
 		if strings.Contains(c.Harness, "_C15_") {
 			cdir := filepath.Join(repoDir, "c")
 			cdriver = filepath.Join(tmp, "cdriver")
-			args := []string{"-O1", "-w", "-I" + cdir, "-I" + filepath.Join(cdir, "include"), filepath.Join(harnessDir, "cdriver.c")}
-			for _, f := range []string{"record.c", "basics.c", "strbuf.c", "publicbasics.c", "git-compat-util.c"} {
-				args = append(args, filepath.Join(cdir, f))
+			// the whole C library, the C-side harness code and the driver, under AddressSanitizer
+			args := []string{"-O1", "-g", "-w", "-fsanitize=address", "-fno-omit-frame-pointer", "-I" + cdir, "-I" + filepath.Join(cdir, "include"),
+				filepath.Join(harnessDir, "cdriver.c"), filepath.Join(harnessDir, "cshim.c")}
+			srcs, err := cSources(cdir)
+			if err != nil {
+				return nil, "", err
 			}
-			args = append(args, "-o", cdriver)
+			args = append(args, srcs...)
+			args = append(args, "-lz", "-o", cdriver)
 			if b, err := exec.Command("clang", args...).CombinedOutput(); err != nil {
 				return nil, string(b), fmt.Errorf("cannot build the C replay driver: %v\n%s", err, tail(string(b), 20))
 			}
@@ -155,7 +159,7 @@ func nativeReplay(repoDir, harnessDir string, cases []replayCase, dropFiles map[
 	for attempt := 0; attempt < len(cases)+2 && start < len(cases); attempt++ {
 		os.Remove(outPath)
 		race := ""
-		limit := "ulimit -v 12000000; "
+		limit := "ulimit -S -v 12000000; "
 		for _, c := range cases {
 			if strings.Contains(c.Harness, "_C19_") {
 				// shared-reader harnesses: two goroutines under the race detector
